@@ -14,11 +14,11 @@ CONSTANTS MaxTok, Full      \* Full = FALSE: the reduced token alphabet (quick t
 TokensFull == { Codes("0"), Codes("1"), Codes("2"), Codes("10"), Codes("007"), Codes("."), Codes("_"),
             Codes("alpha"), Codes("ALPHA"), Codes("Beta"), Codes("rc"), Codes("pre"), Codes("PRE"),
             Codes("pl"), Codes("nb"), Codes("NB3"), Codes("nb12"), Codes("a"), Codes("b"), Codes("z"),
-            Codes("A"), Codes("Q"), <<233>>, Codes("+"), Codes("-"), Codes("~") }
+            Codes("A"), Codes("Q"), <<233>>, Codes("+"), Codes("-"), Codes("~"), <<178>>, <<1635>>, <<65299>> }
 TokensQuick == { Codes("0"), Codes("1"), Codes("10"), Codes("."), Codes("_"),
             Codes("alpha"), Codes("Beta"), Codes("rc"), Codes("PRE"),
             Codes("pl"), Codes("NB3"), Codes("nb12"), Codes("a"), Codes("z"),
-            Codes("Q"), <<233>>, Codes("+") }
+            Codes("Q"), <<233>>, Codes("+"), <<178>>, <<1635>> }
 Tokens == IF Full THEN TokensFull ELSE TokensQuick
 
 VerSet == { Flatten(ts) : ts \in UNION { [1..n -> Tokens] : n \in 0..MaxTok } }
